@@ -78,18 +78,22 @@ Definition tables_ok (root : position) (s : sst) : Prop :=
 Lemma state_tables : forall root s, C13_state go_keys go_econsts root s <-> tables_ok root s /\ s_pv s = [].
 Proof. intros root s. unfold C13_state, tables_ok. tauto. Qed.
 
-(* a search from any legal position [root1] - in particular from an earlier position of the same game -
+(* a search from any legal position [root1] - e.g. an earlier position of the same game -
    keeps the tables fit for a later mate-in-one search from [root], whatever it returns (a move,
-   a cancellation, ...) *)
+   a cancellation, ...), provided no position that search can visit collides with a checkmated
+   successor of [root] *)
 Theorem search_keeps_tables : forall root root1 iters fuel rep s req r s',
-  legal_pos root1 -> no_collision root -> tables_ok root s ->
+  legal_pos root1 -> no_collision_from root1 root -> tables_ok root s ->
   go_search iters fuel rep s root1 req = (r, s') ->
   tables_ok root s'.
 Proof.
   intros root root1 iters fuel rep s req r s' H1 HN Hs E.
-  exact (search_keeps go_keys go_econsts go_oconsts go_sconsts (mate_hash go_keys root) legal_pos
-           (legal_pos_move go_keys) (legal_pos_null go_keys) legal_pos_eval_sane HN
-           root1 iters fuel rep s req r s' H1 Hs E).
+  refine (search_keeps go_keys go_econsts go_oconsts go_sconsts (mate_hash go_keys root) (visited go_keys root1)
+           _ _ _ HN root1 iters fuel rep s req r s' _ Hs E).
+  - intros; eapply visited_move; eauto.
+  - intros; eapply visited_null; eauto.
+  - intros p V. apply legal_pos_eval_sane. eapply visited_legal; eauto.
+  - constructor.
 Qed.
 
 (* with [root1 = root]: the form of [C13_state_preserved], for a whole Search *)
@@ -99,60 +103,93 @@ Corollary search_keeps_tables_same : forall root iters fuel rep s req r s',
   tables_ok root s'.
 Proof. intros root iters fuel rep s req r s' HR. apply search_keeps_tables; exact HR. Qed.
 
-(* the states of a session: a freshly started engine; after a search from a legal position; after the
-   caller changed anything but the table and the cache (new search object on the shared tables: game
-   history, cancellation, counters, heuristics, [s_pv] reset) *)
-Inductive session : sst -> Prop :=
-| session_fresh : forall c, session (go_empty_sst c)
-| session_search : forall s root1 iters fuel rep req r s',
-    session s -> legal_pos root1 -> go_search iters fuel rep s root1 req = (r, s') -> session s'
-| session_caller : forall s s2,
-    session s -> s_tt s2 = s_tt s -> s_cache s2 = s_cache s -> session s2.
+(* the states of a session, with the positions searched so far: a freshly started engine; after a
+   search from a legal position; after the caller changed anything but the table and the cache (new
+   search object on the shared tables: game history, cancellation, counters, heuristics, [s_pv] reset) *)
+Inductive session : list position -> sst -> Prop :=
+| session_fresh : forall c, session [] (go_empty_sst c)
+| session_search : forall roots s root1 iters fuel rep req r s',
+    session roots s -> legal_pos root1 -> go_search iters fuel rep s root1 req = (r, s') ->
+    session (root1 :: roots) s'
+| session_caller : forall roots s s2,
+    session roots s -> s_tt s2 = s_tt s -> s_cache s2 = s_cache s -> session roots s2.
 
-Theorem session_tables_ok : forall root s, no_collision root -> session s -> tables_ok root s.
+Theorem session_tables_ok : forall root roots s,
+  (forall root1, In root1 roots -> no_collision_from root1 root) -> session roots s -> tables_ok root s.
 Proof.
-  intros root s HN Hs. induction Hs as [c|s root1 iters fuel rep req r s' Hs IH H1 E|s s2 Hs IH Et Ec].
+  intros root roots s HN Hs.
+  induction Hs as [c|roots s root1 iters fuel rep req r s' Hs IH H1 E|roots s s2 Hs IH Et Ec].
   - destruct (empty_state_ok root c) as (A & B & _). split; assumption.
-  - eapply search_keeps_tables; eauto.
-  - unfold tables_ok. rewrite Et, Ec. exact IH.
+  - eapply search_keeps_tables; [exact H1|apply HN; left; reflexivity| |exact E].
+    apply IH. intros r1 Hin. apply HN. right; exact Hin.
+  - unfold tables_ok. rewrite Et, Ec. apply IH; exact HN.
+Qed.
+
+(* all the earlier searches were from positions of the game that led to [root]: one hypothesis about
+   the oldest of them suffices *)
+Corollary session_tables_ok_game : forall root root0 roots s,
+  (forall root1, In root1 roots -> visited go_keys root0 root1) -> no_collision_from root0 root ->
+  session roots s -> tables_ok root s.
+Proof.
+  intros root root0 roots s HV HN Hs. eapply session_tables_ok; [|exact Hs].
+  intros root1 Hin. eapply no_collision_from_later; [apply HV; exact Hin|exact HN].
 Qed.
 
 (* C13 for any search of a session: whatever was searched before (other positions, other limits,
    cancelled or not), a search that starts with [s_pv = []] from a legal position with a mate in one
    answers a mating move *)
-Theorem C13_mate_in_one_session : forall root iters fuel rep s req answer s',
-  session s -> s_pv s = [] ->
+Theorem C13_mate_in_one_session : forall root roots iters fuel rep s req answer s',
+  session roots s -> s_pv s = [] ->
   legal_pos root -> few_gen root ->
   (forall m q, gen_of root m -> make_move go_keys root m = Ok q -> few_gen q) ->
   (exists m0, mating go_keys root m0) ->
-  no_collision root ->
+  no_collision root -> (forall root1, In root1 roots -> no_collision_from root1 root) ->
   (fuel <= 255)%nat -> (req <= 254)%N ->
   go_search iters fuel rep s root req = (ROk answer, s') ->
   mating go_keys root answer.
 Proof.
-  intros root iters fuel rep s req answer s' Hs Hpv HR F1 F2 Hex HN Hf Hreq E.
+  intros root roots iters fuel rep s req answer s' Hs Hpv HR F1 F2 Hex HN HNs Hf Hreq E.
   eapply C13_mate_in_one_legal; eauto.
-  apply state_tables. split; [apply session_tables_ok; assumption|exact Hpv].
+  apply state_tables. split; [eapply session_tables_ok; eassumption|exact Hpv].
 Qed.
 
 (* the usual case: the caller builds the new search object with [go_init_sst] on the shared tables *)
-Corollary C13_mate_in_one_next : forall root iters fuel rep s0 hist c req answer s',
-  session s0 ->
+Corollary C13_mate_in_one_next : forall root roots iters fuel rep s0 hist c req answer s',
+  session roots s0 ->
   legal_pos root -> few_gen root ->
   (forall m q, gen_of root m -> make_move go_keys root m = Ok q -> few_gen q) ->
   (exists m0, mating go_keys root m0) ->
-  no_collision root ->
+  no_collision root -> (forall root1, In root1 roots -> no_collision_from root1 root) ->
   (fuel <= 255)%nat -> (req <= 254)%N ->
   go_search iters fuel rep (go_init_sst (s_tt s0) (s_cache s0) hist c) root req = (ROk answer, s') ->
   mating go_keys root answer.
 Proof.
-  intros root iters fuel rep s0 hist c req answer s' Hs. intros.
-  eapply (C13_mate_in_one_session root iters fuel rep (go_init_sst (s_tt s0) (s_cache s0) hist c)); eauto.
+  intros root roots iters fuel rep s0 hist c req answer s' Hs. intros.
+  eapply (C13_mate_in_one_session root roots iters fuel rep (go_init_sst (s_tt s0) (s_cache s0) hist c)); eauto.
   eapply session_caller; [exact Hs|reflexivity|reflexivity].
+Qed.
+
+(* the session hypotheses are met by a non-trivial state: a depth-2 search from the first example
+   root on a fresh engine, then a new search object on the tables it left *)
+Example session_example :
+  let s1 := snd (go_search 20 200 true (go_empty_sst None) (root_of fen1) 2) in
+  session [root_of fen1] (go_init_sst (s_tt s1) (s_cache s1) [] (Some 5%N)) /\
+  st_he (s_tt s1) <> 0%N.
+Proof.
+  intros s1. split.
+  - apply (session_caller [root_of fen1] s1); [|reflexivity|reflexivity].
+    apply (session_search [] (go_empty_sst None) (root_of fen1) 20 200 true 2
+             (fst (go_search 20 200 true (go_empty_sst None) (root_of fen1) 2)) s1).
+    + constructor.
+    + exact root1_legal.
+    + apply surjective_pairing.
+  - vm_compute. discriminate.
 Qed.
 
 Print Assumptions search_keeps.
 Print Assumptions search_keeps_tables.
 Print Assumptions session_tables_ok.
+Print Assumptions session_tables_ok_game.
+Print Assumptions session_example.
 Print Assumptions C13_mate_in_one_session.
 Print Assumptions C13_mate_in_one_next.
